@@ -344,3 +344,8 @@ def write_replay(prop, seed, n, payload):
 
 def known_findings():
     return json.load(open(os.path.join(HERE, "known_findings.json"), encoding="utf8"))["findings"]
+
+
+def call(func, args):
+    """Picklable dispatcher for `parallel`: shards are (function, args) pairs."""
+    return func(*args)
